@@ -21,8 +21,8 @@ PROPS = {
 
 PROPS["C01"] = dict(
     pkg="c01", race=True, level="exploration", prepare="exec_projects",
-    projects_quick=[("core", ["v0", "v1", "v2", "v3"]), ("roots", ["v0", "v1"])],
-    projects_thorough=[("core", ["v0", "v1", "v2", "v3", "v4", "v5"]), ("roots", ["v0", "v1", "v4"])],
+    projects_quick=[("core", ["v0", "v1", "v2", "v3"]), ("roots", ["v0", "v1"]), ("rnd1", ["v0", "v1"]), ("rnd2", ["v0", "v3"]), ("rnd3", ["v0", "v2"])],
+    projects_thorough=[("core", ["v0", "v1", "v2", "v3", "v4", "v5"]), ("roots", ["v0", "v1", "v4"])] + [("rnd%d" % k, ["v0", ["v1", "v2", "v3", "v4", "v5"][k % 5]]) for k in range(1, 9)],
     quick=dict(shards=8, timeout=600), thorough=dict(shards=16, timeout=3000),
     claim="differential testing of servers generated at check time from /repo's templates (several option vectors linked into one "
           "binary) against an independent reference GraphQL executor, over rapid-generated operations (fragments, aliases, "
@@ -40,8 +40,8 @@ PROPS["C01"] = dict(
 
 PROPS["C04"] = dict(
     pkg="c04", race=False, level="fault_enumeration", prepare="exec_projects", crash_is_violation=True,
-    projects_quick=[("core", ["v0", "w1", "w2"])],
-    projects_thorough=[("core", ["v0", "w1", "w2", "v1", "v2"])],
+    projects_quick=[("core", ["v0", "w1", "w2"]), ("rnd4", ["v0", "w2"]), ("rnd5", ["w1"])],
+    projects_thorough=[("core", ["v0", "w1", "w2", "v1", "v2"])] + [("rnd%d" % k, ["v0", "w1", "w2"]) for k in (4, 5, 6, 7)],
     quick=dict(shards=8, timeout=900), thorough=dict(shards=16, timeout=3000),
     claim="fault enumeration: for every rapid-generated operation the check first runs fault-free to learn the invocation keys, then "
           "injects every single fault (each resolver and directive invocation x {error, panic}, foreign Go values at abstract "
@@ -58,8 +58,8 @@ PROPS["C04"] = dict(
 
 PROPS["C06"] = dict(
     pkg="c06", race=True, level="exploration", prepare="exec_projects",
-    projects_quick=[("core", ["v0", "w1", "w2"]), ("roots", ["v0", "w2"])],
-    projects_thorough=[("core", ["v0", "w1", "w2", "v1", "w8"]), ("roots", ["v0", "v1", "w2"])],
+    projects_quick=[("core", ["v0", "w1", "w2"]), ("roots", ["v0", "w2"]), ("rnd6", ["v0", "w2"]), ("rnd7", ["v0", "w1"])],
+    projects_thorough=[("core", ["v0", "w1", "w2", "v1", "w8"]), ("roots", ["v0", "v1", "w2"])] + [("rnd%d" % k, ["v0", "w1", "w2"]) for k in (6, 7, 8, 9)],
     quick=dict(shards=8, timeout=900), thorough=dict(shards=16, timeout=3000),
     claim="metamorphic testing under the Go race detector: every generated (operation, plan) pair is executed under 8 harness-owned "
           "schedules (none, yields, delays, reversed sibling completion through gates, mixed) on servers generated with "
@@ -75,8 +75,8 @@ PROPS["C06"] = dict(
 PROPS["C05"] = dict(
     env={"VF_SHRINKTIME": "40s"},
     pkg="c05", race=False, level="fault_enumeration", prepare="exec_projects", crash_is_violation=True,
-    projects_quick=[("core", ["v0", "w1", "w2", "w8"])],
-    projects_thorough=[("core", ["v0", "w1", "w2", "w8", "v1"])],
+    projects_quick=[("core", ["v0", "w1", "w2", "w8"]), ("rnd8", ["v0", "w1"])],
+    projects_thorough=[("core", ["v0", "w1", "w2", "w8", "v1"])] + [("rnd%d" % k, ["v0", "w1", "w2"]) for k in (8, 9, 10)],
     quick=dict(shards=16, timeout=1200), thorough=dict(shards=16, timeout=6000),
     claim="cancellation-point enumeration: for every generated operation (with and without @defer, list fan-out) the request context "
           "is cancelled before and after every k-th resolver call (with earlier resolvers released or held in flight), for "
@@ -94,8 +94,8 @@ PROPS["C05"] = dict(
 PROPS["C13"] = dict(
     env={"VF_SHRINKTIME": "40s"},
     pkg="c13", race=False, level="exploration", prepare="exec_projects",
-    projects_quick=[("core", ["v0", "v1", "w2"])],
-    projects_thorough=[("core", ["v0", "v1", "w2", "v4"])],
+    projects_quick=[("core", ["v0", "v1", "w2"]), ("rnd9", ["v0", "w2"])],
+    projects_thorough=[("core", ["v0", "v1", "w2", "v4"])] + [("rnd%d" % k, ["v0", "w2"]) for k in (9, 10, 11, 12)],
     quick=dict(shards=8, timeout=900), thorough=dict(shards=16, timeout=3000),
     claim="metamorphic/differential testing of @defer on generated servers: rapid-generated queries with @defer on random subsets of "
           "fragments (nested, in lists, if: literal/variable, shared/distinct/absent labels) x outcome plans with failures inside "
@@ -112,8 +112,8 @@ PROPS["C13"] = dict(
 
 PROPS["C14"] = dict(
     pkg="c14", race=False, level="exploration", prepare="exec_projects",
-    projects_quick=[("core", ["v0", "v1"])],
-    projects_thorough=[("core", ["v0", "v1", "v3", "v4"])],
+    projects_quick=[("core", ["v0", "v1"]), ("rnd10", ["v0"]), ("rnd11", ["v1"])],
+    projects_thorough=[("core", ["v0", "v1", "v3", "v4"])] + [("rnd%d" % k, ["v0", "v1"]) for k in (10, 11, 12, 13)],
     quick=dict(shards=8, timeout=600), thorough=dict(shards=16, timeout=3000),
     claim="differential testing of complexity.Calculate and the ComplexityLimit gate on generated servers against an independent "
           "arbitrary-precision evaluator of the documented definition, over rapid-generated operations (fragments, interface and union "
